@@ -829,3 +829,35 @@ markClass a <anchor 150 -10> @top;
         "mark_class_in_glyph_class",
     );
 }
+
+#[test]
+fn remap_name_ids_moves_size_menu_name() {
+    use write_fonts::{tables::layout::FeatureParams, types::NameId};
+
+    let mut compilation = compile_fea(
+        "\
+feature size {
+    parameters 10.0 3 80 139;
+    sizemenuname \"Text\";
+} size;
+",
+        "remap_size_menu_name",
+    );
+    compilation.remap_name_ids(512);
+    let gpos = compilation.gpos.as_ref().unwrap();
+    let params = gpos.feature_list.feature_records[0]
+        .feature
+        .feature_params
+        .as_ref()
+        .unwrap();
+    let FeatureParams::Size(size) = params else {
+        panic!("size should have Size params");
+    };
+    assert_eq!(size.name_entry, 512);
+    let name = compilation.name.as_ref().unwrap();
+    assert!(
+        name.name_record
+            .iter()
+            .all(|record| record.name_id == NameId::new(512))
+    );
+}
